@@ -134,6 +134,18 @@ func (r setRules) Less(v1, v2 interface{}) bool {
 	}
 }
 
+// numberHashString returns the text that stands for the given number in
+// set hash bytes. It must produce the same text for any two numbers that
+// rawNumberEqual considers equal, so it follows the same rules: whole numbers
+// by their integer value and anything else by its shortest decimal text.
+func numberHashString(f *big.Float) string {
+	if f.IsInt() {
+		i, _ := f.Int(nil)
+		return i.String()
+	}
+	return f.Text('f', -1)
+}
+
 func makeSetHashBytes(val Value) ([]byte, ValueMarks) {
 	var buf bytes.Buffer
 	marks := make(ValueMarks)
@@ -187,10 +199,10 @@ func appendSetHashBytes(val Value, buf *bytes.Buffer, marks ValueMarks) {
 		// here just so that we can get far enough along to fix it up for
 		// everything else in this package.
 		if bf, ok := val.v.(big.Float); ok {
-			buf.WriteString(bf.String())
+			buf.WriteString(numberHashString(&bf))
 			return
 		}
-		buf.WriteString(val.v.(*big.Float).String())
+		buf.WriteString(numberHashString(val.v.(*big.Float)))
 		return
 	case Bool:
 		if val.v.(bool) {
